@@ -1022,13 +1022,58 @@ def _inline_new_constants(tree, modname):
             if isinstance(x, ast.Name) and isinstance(x.ctx, (ast.Store,
                                                                ast.Del)):
                 count[x.id] = count.get(x.id, 0) + 1
+    def display(e):
+        # a literal table of numbers: (1, 2), [(1, 1), (0, 1)], {1: 2}
+        if isinstance(e, (ast.Tuple, ast.List, ast.Set)):
+            return bool(e.elts) and all(numeric(x) or display(x)
+                                        for x in e.elts)
+        if isinstance(e, ast.Dict):
+            return bool(e.keys) and all(
+                k is not None and numeric(k) and (numeric(v) or display(v))
+                for k, v in zip(e.keys, e.values))
+        return False
+
+    def only_read(nm):
+        # every use of the table in the module only looks at it
+        for x in ast.walk(tree):
+            if not (isinstance(x, ast.Name) and x.id == nm and
+                    isinstance(x.ctx, ast.Load)):
+                continue
+            p = getattr(x, "_parent", None)
+            if isinstance(p, (ast.For, ast.comprehension)) and p.iter is x:
+                continue
+            if isinstance(p, ast.Compare) and x in p.comparators and all(
+                    isinstance(o, (ast.In, ast.NotIn)) for o in p.ops):
+                continue
+            if isinstance(p, ast.Subscript) and p.value is x and \
+                    isinstance(p.ctx, ast.Load):
+                continue
+            if isinstance(p, ast.Call) and x in p.args and isinstance(
+                    p.func, ast.Name) and p.func.id in (
+                        "len", "enumerate", "sorted", "tuple", "list", "set",
+                        "frozenset", "dict", "sum", "min", "max", "zip",
+                        "reversed", "iter"):
+                continue
+            if isinstance(p, ast.Attribute) and p.value is x and p.attr in (
+                    "get", "items", "keys", "values", "index", "count") \
+                    and isinstance(getattr(p, "_parent", None), ast.Call):
+                continue
+            return False
+        return True
+    for node in ast.walk(tree):
+        for child in ast.iter_child_nodes(node):
+            child._parent = node
     consts = {}
     for st in tree.body:
         if isinstance(st, ast.Assign) and len(st.targets) == 1 and \
                 isinstance(st.targets[0], ast.Name) and \
                 count.get(st.targets[0].id) == 1 and \
-                st.targets[0].id not in known and numeric(st.value):
-            consts[st.targets[0].id] = st.value
+                st.targets[0].id not in known and (
+                    numeric(st.value) or
+                    (display(st.value) and only_read(st.targets[0].id))):
+            # (a detached copy: the nodes of the tree carry _parent links)
+            consts[st.targets[0].id] = ast.parse(
+                ast.unparse(st.value), mode="eval").body
     if not consts:
         return
     for n in ast.walk(tree):
